@@ -30,18 +30,39 @@ Notation expr := (expr O).
 Notation eval := (eval O X).
 
 (* ---- what the evaluator's regenerated arm table computes on two ints / two floats ---- *)
+(* how the evaluator's (op, Int, Int) arm is written: raw, checked or wrapping (read off the table) *)
+Definition int_arm_mode (op : binop) : imode :=
+  match find (fun a => binop_eqb (aa_op a) op && match aa_l a, aa_r a with AInt, AInt => true | _, _ => false end) arith_arms with
+  | Some a => match aa_how a with HInt m _ => m | _ => Checked end
+  | None => Checked
+  end.
+Definition neg_arm_mode : imode :=
+  match find (fun x => match fst x with AInt => true | _ => false end) neg_arms with
+  | Some (_, NInt m) => m
+  | _ => Checked
+  end.
+
 Lemma arith_int_int : forall op a b,
   arith O op (VInt O a) (VInt O b) =
   match op with
-  | Add => lift_int O (int2 Checked IAdd a b)
-  | Sub => lift_int O (int2 Checked ISub a b)
-  | Mul => lift_int O (int2 Checked IMul a b)
-  | Div => if negb (b =? 0) then lift_int O (int2 Checked IDiv a b) else NoVal
-  | Mod => if negb (b =? 0) then lift_int O (int2 Checked IRem a b) else NoVal
+  | Add => lift_int O (int2 (int_arm_mode Add) IAdd a b)
+  | Sub => lift_int O (int2 (int_arm_mode Sub) ISub a b)
+  | Mul => lift_int O (int2 (int_arm_mode Mul) IMul a b)
+  | Div => if negb (b =? 0) then lift_int O (int2 (int_arm_mode Div) IDiv a b) else NoVal
+  | Mod => if negb (b =? 0) then lift_int O (int2 (int_arm_mode Mod) IRem a b) else NoVal
   | Pow => Val (VInt O (pow_int_int O a b))
   | _ => NoVal
   end.
 Proof. intros op a b. destruct op; reflexivity. Qed.
+
+(* where the checked operation has a value, the raw and the wrapping operation have the same *)
+Lemma int2_checked_val_any_mode : forall o a b z m, int2 Checked o a b = Val z -> int2 m o a b = Val z.
+Proof.
+  intros o a b z m H. unfold int2 in *. destruct (iop2_math o a b); [|discriminate].
+  destruct (iop2_ovf o a b z0); [discriminate|assumption].
+Qed.
+Lemma int1_checked_val_any_mode : forall o a z m, int1 Checked o a = Val z -> int1 m o a = Val z.
+Proof. intros o a z m H. unfold int1 in *. destruct (in_i64 (iop1_math o a)); [assumption|discriminate]. Qed.
 
 Lemma arith_float_float : forall op a b,
   arith O op (VFloat O a) (VFloat O b) =
@@ -56,7 +77,7 @@ Lemma arith_float_float : forall op a b,
   end.
 Proof. intros op a b. destruct op; reflexivity. Qed.
 
-Lemma neg_int : forall n, eval_unop O Neg (VInt O n) = lift_int O (int1 Checked INeg n).
+Lemma neg_int : forall n, eval_unop O Neg (VInt O n) = lift_int O (int1 neg_arm_mode INeg n).
 Proof. reflexivity. Qed.
 Lemma neg_float : forall f, eval_unop O Neg (VFloat O f) = Val (VFloat O (f_neg O f)).
 Proof. reflexivity. Qed.
@@ -89,7 +110,8 @@ Proof.
       split; [|exact I]. cbn [eval Model.eval eval_binop].
       destruct op; destruct o; try discriminate Hok; cbn [eval_binop]; rewrite arith_int_int;
         try rewrite (int2_checked_div_nz IDiv _ _ _ (or_introl eq_refl) E);
-        try rewrite (int2_checked_div_nz IRem _ _ _ (or_intror eq_refl) E); rewrite E; reflexivity.
+        try rewrite (int2_checked_div_nz IRem _ _ _ (or_intror eq_refl) E);
+        rewrite (int2_checked_val_any_mode _ _ _ _ _ E); reflexivity.
     + apply binop_eqb_eq in Hok. subst op. cbn [act_apply]. split; [|exact I].
       cbn [eval Model.eval eval_binop]. rewrite arith_int_int. reflexivity.
   - (* two float literals *)
@@ -174,7 +196,7 @@ Proof.
   destruct op; try discriminate Hru; destruct p; try discriminate Hru; destruct a as [m|]; try discriminate Hru.
   - destruct m; try discriminate Hru. destruct x; try discriminate Hp.
     destruct (int1 Checked INeg z) as [v| |] eqn:E; [|exact I|].
-    + split; [|exact I]. cbn [eval Model.eval]. rewrite neg_int, E. reflexivity.
+    + split; [|exact I]. cbn [eval Model.eval]. rewrite neg_int, (int1_checked_val_any_mode _ _ _ _ E). reflexivity.
     + exact (int1_not_raw_no_panic Checked INeg z ltac:(discriminate) E).
   - destruct x; try discriminate Hp. split; [|exact I]. cbn [eval Model.eval]. rewrite neg_float. reflexivity.
 Qed.
